@@ -40,6 +40,8 @@ type Exploration struct {
 	Note     string         `json:"note,omitempty"`
 	Bounds   string         `json:"bounds,omitempty"`
 	NoTwin   bool           `json:"no_twin,omitempty"`
+	Solver   string              `json:"solver,omitempty"`   // "z3" (default) or "cvc5"
+	SolverMs int                 `json:"solver_ms,omitempty"`
 	Validate []map[string]string `json:"validate,omitempty"` // concrete input vectors for translator validation
 }
 
@@ -259,6 +261,7 @@ func cmdExplore(args []string) int {
 	maxSteps := fs.Int64("maxsteps", 0, "")
 	timeout := fs.Int("solver-timeout-ms", 20000, "")
 	transcript := fs.String("transcript", "", "")
+	solver := fs.String("solver", "z3", "z3 | z3-new | cvc5")
 	fixed := fs.String("fixed", "", "name=value,... (concrete run)")
 	verbose := fs.Bool("v", false, "")
 	fs.Parse(args)
@@ -275,7 +278,7 @@ func cmdExplore(args []string) int {
 		fmt.Println("no such function", *fn)
 		return 2
 	}
-	opt := interp.Options{Workers: *workers, Params: parseParams(*params), Twin: *twin, MaxPaths: *maxPaths, MaxSteps: *maxSteps, SolverTimeMs: *timeout, Transcript: *transcript}
+	opt := interp.Options{Workers: *workers, Params: parseParams(*params), Twin: *twin, MaxPaths: *maxPaths, MaxSteps: *maxSteps, SolverTimeMs: *timeout, Transcript: *transcript, SolverBin: *solver}
 	if *fixed != "" {
 		opt.Fixed = map[string]string{}
 		for _, kv := range strings.Split(*fixed, ",") {
@@ -443,7 +446,10 @@ func cmdCheck(args []string) int {
 			continue
 		}
 		h := &interp.Harness{Prog: prog.Prog, Pkg: sp, Fn: f, IsTarget: load.IsTarget}
-		opt := interp.Options{Workers: workers, Params: e.Params, MaxSteps: e.MaxSteps, MaxDecisions: e.MaxDec, SolverTimeMs: 60000}
+		opt := interp.Options{Workers: workers, Params: e.Params, MaxSteps: e.MaxSteps, MaxDecisions: e.MaxDec, SolverTimeMs: 60000, SolverBin: e.Solver}
+		if e.SolverMs > 0 {
+			opt.SolverTimeMs = e.SolverMs
+		}
 		res := interp.Explore(h, opt)
 		sm := exploreSummary{ID: e.ID, Harness: e.Pkg + "." + e.Fn, Params: e.Params, Bounds: e.Bounds, Paths: res.Paths, Completed: res.Completed, Pruned: res.Pruned,
 			Asserts: res.Asserts, Discharged: res.Discharged, Decisions: res.Decisions, Steps: res.Steps, Queries: res.SolverQueries,
